@@ -8,6 +8,7 @@ import (
 	wire "github.com/jeroenrinzema/psql-wire"
 
 	"verif/harness/mem"
+	"verif/harness/pgw"
 )
 
 // PlayMulti runs several sessions concurrently on one server, interleaved as
@@ -19,6 +20,17 @@ import (
 // produces on a server that serves it alone.
 func PlayMulti(beh M, rng *rand.Rand, proj *Projection) ([][]M, error) {
 	cfg := M{"auth": "none", "tls": "nil", "params": M{"shared": "x"}, "version": "15", "mw": []any{"ok"}, "term": "ok", "limit": 65536}
+	cfg["_ext"] = I(beh, "_i") % 2 // every other execution runs with a type extension registered
+	if I(beh, "_i")%4 == 1 {
+		// earlier in the life of the process a connection carried only a CancelRequest (what client libraries
+		// send when a query times out): it leaves no trace on the connections served afterwards
+		if x0, err := NewExec(cfg); err == nil {
+			cc := x0.Dial()
+			cc.Send(pgw.Cancel(1, 2))
+			cc.WaitClosed(WaitTimeout) //nolint
+			x0.Shutdown()
+		}
+	}
 	x, err := NewExec(cfg)
 	if err != nil {
 		return nil, err
@@ -126,6 +138,13 @@ func PlayMulti(beh M, rng *rand.Rand, proj *Projection) ([][]M, error) {
 		}
 		sort.Ints(mapsOf[a])
 	}
+	partsOf := map[string][]int{}
+	for a, ids := range s.PartsOf {
+		for id := range ids {
+			partsOf[a] = append(partsOf[a], id)
+		}
+		sort.Ints(partsOf[a])
+	}
 	s.mu.Unlock()
 	var out [][]M
 	evs := x.Log.Events()
@@ -153,8 +172,18 @@ func PlayMulti(beh M, rng *rand.Rand, proj *Projection) ([][]M, error) {
 				}
 			}
 		}
+		parts, otherParts := []any{}, []any{}
+		for a, ids := range partsOf {
+			for _, id := range ids {
+				if a == actor(c) {
+					parts = append(parts, id)
+				} else {
+					otherParts = append(otherParts, id)
+				}
+			}
+		}
 		tr := append([]M{{"k": "cfg", "c": Clean(cfg)}}, p.Out...)
-		tr = append(tr, M{"k": "x-maps", "own": own, "others": others})
+		tr = append(tr, M{"k": "x-maps", "own": own, "others": others, "parts": parts, "otherparts": otherParts})
 		out = append(out, tr)
 	}
 	return out, nil
